@@ -99,18 +99,22 @@ Definition md_lookup (d : memdict) (fuzzy : bool) (k : list N) : list phrase :=
 
 Definition md_user_lookup (d : memdict) (k : list N) : list phrase := tb_lookup (md_user d) (md_grave d) k.
 
+(* add_phrase / update_phrase lift the tombstone of the key they write *)
+Definition grave_remove (k t : list N) (g : list (list N * list N)) : list (list N * list N) :=
+  filter (fun x => negb (text_eqb (fst x) k && text_eqb (snd x) t)) g.
+
 Definition md_add (d : memdict) (k t : list N) (f : N) : memdict * bool :=
   match t with
   | [] => (d, true)                      (* Layered::add_phrase: empty phrase is logged and ignored *)
   | _ =>
     if existsb (fun p => text_eqb (fst p) t) (md_user_lookup d k) then (d, false)
-    else (mkMD (md_sys d) (bt_insert (k, t, f, 0%N) (md_user d)) (md_grave d), true)
+    else (mkMD (md_sys d) (bt_insert (k, t, f, 0%N) (md_user d)) (grave_remove k t (md_grave d)), true)
   end.
 
 Definition md_update (d : memdict) (k t : list N) (orig uf time : N) : memdict :=
   match t with
   | [] => d
-  | _ => mkMD (md_sys d) (bt_insert (k, t, uf, time) (md_user d)) (md_grave d)
+  | _ => mkMD (md_sys d) (bt_insert (k, t, uf, time) (md_user d)) (grave_remove k t (md_grave d))
   end.
 
 Definition md_remove (d : memdict) (k t : list N) : memdict :=
